@@ -109,6 +109,7 @@ enum AnyReader {
 	Slice(Reader<SliceRead<'static>>, Rc<Buf>),
 	Buf(Reader<ReaderRead<Cursor<Vec<u8>>>>),
 	Chunked(Reader<ReaderRead<Chunked>>),
+	Small(Reader<ReaderRead<std::io::BufReader<Cursor<Vec<u8>>>>>),
 }
 
 #[derive(Default, Clone, Debug)]
@@ -137,6 +138,9 @@ pub struct Counters {
 	/// successful reads of the 3rd / 4th block of a compressed "sized" file (the decompression buffer had
 	/// len < capacity and had to grow beyond its first size)
 	pub reads_regrown_block: u64,
+	/// gathered reads (ReaderRead scratch buffer) that grew the scratch after an earlier amortised growth
+	/// had left len < capacity, by less than that slack (per the model `fixtures::ScratchSim`)
+	pub scratch_regrow_reads: u64,
 }
 impl Counters {
 	pub fn fields(&self) -> Vec<(&'static str, u64)> {
@@ -163,6 +167,7 @@ impl Counters {
 			("freeze_err_unnamed_cycle", self.freeze_err_unnamed_cycle),
 			("known_answers", self.known_answers),
 			("reads_regrown_block", self.reads_regrown_block),
+			("scratch_regrow_reads", self.scratch_regrow_reads),
 		]
 	}
 	pub fn add(&mut self, o: &Counters) {
@@ -194,6 +199,7 @@ impl Counters {
 		self.freeze_err_unnamed_cycle = v[19];
 		self.known_answers = v[20];
 		self.reads_regrown_block = v[21];
+		self.scratch_regrow_reads = v[22];
 	}
 	pub fn to_line(&self) -> String {
 		self.fields().iter().map(|(k, v)| format!("{k}={v}")).collect::<Vec<_>>().join(" ")
@@ -240,6 +246,9 @@ pub struct World<'f> {
 	r_codec: Option<fixtures::Codec>,
 	r_sized: bool,
 	r_reads: u32,
+	r_scratch: Option<fixtures::ScratchSim>,
+	r_variant: u8,
+	r_nexts: u32,
 	v: [Option<Val>; 2],
 	step: usize,
 	pub results: Vec<String>,
@@ -264,6 +273,7 @@ fn discard_reader(rd: &mut Option<AnyReader>) {
 		}
 		Some(AnyReader::Buf(r)) => drop(r),
 		Some(AnyReader::Chunked(r)) => drop(r),
+		Some(AnyReader::Small(r)) => drop(r),
 		None => {}
 	}
 }
@@ -294,6 +304,9 @@ impl<'f> World<'f> {
 			r_codec: None,
 			r_sized: false,
 			r_reads: 0,
+			r_scratch: None,
+			r_variant: 0,
+			r_nexts: 0,
 			v: [None, None],
 			step: 0,
 			results: Vec::new(),
@@ -601,6 +614,38 @@ impl<'f> World<'f> {
 					}
 				}
 			}
+			Op::Gather(kind) => {
+				let schema = catch_unwind(AssertUnwindSafe(|| match self.proto {
+					Some(p) => p.get(fixtures::N_TEXTS).and_then(|m| m.freeze().map_err(|_| ())),
+					None => fixtures::GATHER_TEXT.parse::<Schema>().map_err(|_| ()),
+				}));
+				let Ok(Ok(schema)) = schema else {
+					self.counters.mispredict += 1;
+					return "schema-err".to_owned();
+				};
+				let datum = fixtures::gather_datum();
+				let r = catch_unwind(AssertUnwindSafe(|| match kind {
+					0 => serde_avro_fast::from_datum_reader::<_, fixtures::Gathered>(Chunked { data: datum, pos: 0, chunk: 5 }, &schema).map_err(|_| ()),
+					_ => serde_avro_fast::from_datum_reader::<_, fixtures::Gathered>(std::io::BufReader::with_capacity(16, Cursor::new(datum)), &schema).map_err(|_| ()),
+				}));
+				// model: three gathered reads starting from an empty scratch buffer
+				let mut sim = fixtures::ScratchSim::default();
+				let regrow = fixtures::GATHER_LENS.iter().filter(|n| sim.read(**n)).count() as u64;
+				let res = match r {
+					Ok(Ok(g)) => {
+						self.counters.scratch_regrow_reads += regrow;
+						format!("ok:{g:?}")
+					}
+					Ok(Err(())) => "err".to_owned(),
+					Err(_) => {
+						self.counters.panics += 1;
+						"panic".to_owned()
+					}
+				};
+				let want = format!("ok:{:?}", fixtures::gather_expected());
+				self.known_answer(true, "from_datum_reader over a reader that hands out a few bytes at a time", &res, Some(want));
+				res
+			}
 			Op::DropM => {
 				self.m = None;
 				"-".to_owned()
@@ -793,7 +838,16 @@ impl<'f> World<'f> {
 					RKind::Chunked => {
 						outcome(catch_unwind(AssertUnwindSafe(|| Reader::from_reader(Chunked { data: file.clone(), pos: 0, chunk: 5 }).map(AnyReader::Chunked).map_err(|_| ()))))
 					}
+					RKind::Small => outcome(catch_unwind(AssertUnwindSafe(|| Reader::from_reader(std::io::BufReader::with_capacity(16, Cursor::new(file.clone()))).map(AnyReader::Small).map_err(|_| ())))),
 				};
+				// model of the ReaderRead's scratch buffer: only readers whose BufRead hands out less than a
+				// value at a time gather, and only outside compressed blocks
+				self.r_scratch = match (kind, codec) {
+					(RKind::Chunked | RKind::Small, fixtures::Codec::Null) => Some(fixtures::ScratchSim::after_header("null".len())),
+					_ => None,
+				};
+				self.r_variant = variant;
+				self.r_nexts = 0;
 				match r {
 					Ok(Some(r)) => {
 						self.r = Some(r);
@@ -832,12 +886,30 @@ impl<'f> World<'f> {
 							Tgt::Bad => outcome(catch_unwind(AssertUnwindSafe(|| r.deserialize_next::<Bad>().map(|o| o.map(|_| (AnyVal::Owned(RecO { b: "bad-target-succeeded".into(), e: fixtures::Sym::X, l: vec![], u: None }), None))).map_err(|_| ())))),
 							_ => outcome(catch_unwind(AssertUnwindSafe(|| r.deserialize_next::<RecO>().map(|o| o.map(|v| (AnyVal::Owned(v), None))).map_err(|_| ())))),
 						},
+						AnyReader::Small(r) => match tgt {
+							Tgt::Bad => outcome(catch_unwind(AssertUnwindSafe(|| r.deserialize_next::<Bad>().map(|o| o.map(|_| (AnyVal::Owned(RecO { b: "bad-target-succeeded".into(), e: fixtures::Sym::X, l: vec![], u: None }), None))).map_err(|_| ())))),
+							_ => outcome(catch_unwind(AssertUnwindSafe(|| r.deserialize_next::<RecO>().map(|o| o.map(|v| (AnyVal::Owned(v), None))).map_err(|_| ())))),
+						},
+					};
+					// the string field of the next record is gathered first, whatever the target
+					let k = self.r_nexts as usize;
+					self.r_nexts += 1;
+					let lens: Vec<usize> = match self.r_variant {
+						0 => vec![fixtures::value(0).b.len(), fixtures::value(1).b.len()],
+						v => fixtures::file_lens(v),
+					};
+					let regrow = match (self.r_scratch.as_mut(), lens.get(k)) {
+						(Some(s), Some(n)) => s.read(*n),
+						_ => false,
 					};
 					self.r = Some(rd);
 					match r {
 						Ok(Some(Some((v, buf)))) => {
 							self.counters.reads_ok += 1;
 							self.r_reads += 1;
+							if regrow {
+								self.counters.scratch_regrow_reads += 1;
+							}
 							if self.r_codec != Some(fixtures::Codec::Null) {
 								self.counters.reads_compressed_ok += 1;
 								if self.r_sized && self.r_reads >= 3 {
@@ -870,6 +942,7 @@ impl<'f> World<'f> {
 						AnyReader::Slice(r, _) => r.schema().clone(),
 						AnyReader::Buf(r) => r.schema().clone(),
 						AnyReader::Chunked(r) => r.schema().clone(),
+						AnyReader::Small(r) => r.schema().clone(),
 					};
 					let res = format!("ok:{}:{}", fixtures::hex(a.rabin_fingerprint()), a.json());
 					let free = if self.arcs[0].is_none() { 0 } else { 1 };
@@ -902,6 +975,7 @@ impl<'f> World<'f> {
 						AnyReader::Slice(r, b) => AnyReader::Slice(via_thread(r), b),
 						AnyReader::Buf(r) => AnyReader::Buf(via_thread(r)),
 						AnyReader::Chunked(r) => AnyReader::Chunked(via_thread(r)),
+						AnyReader::Small(r) => AnyReader::Small(via_thread(r)),
 					});
 					"ok".to_owned()
 				}
@@ -926,6 +1000,7 @@ impl<'f> World<'f> {
 								}
 								AnyReader::Buf(r) => remote_drop(r),
 								AnyReader::Chunked(r) => remote_drop(r),
+								AnyReader::Small(r) => remote_drop(r),
 							}
 						}
 					}
